@@ -823,8 +823,24 @@ func rulePNIndex(p *Prog, r *Reporter) {
 				}
 				isRange := false
 				for _, rl := range rls {
-					if ia.Index == ssa.Value(rl.incr) && ia.X == rl.seq {
+					if ia.Index == ssa.Value(rl.incr) && (ia.X == rl.seq || sameSeq(ia.X, rl.seq)) {
 						isRange = true
+					}
+					// the counter of a full-range loop over S indexes a slice made with len(S) elements (or more)
+					if ia.Index == ssa.Value(rl.incr) {
+						if mk, isMk := unwrap(ia.X).(*ssa.MakeSlice); isMk && !rl.body[mk.Block()] {
+							ld := p.D(mk.Len)
+							sd := p.D(rl.seq)
+							if ld == "len("+sd+")" || strings.HasPrefix(ld, "(len("+sd+")+") {
+								isRange = true
+							}
+							// make(T, len(S)-k) indexed by the counter of a loop over S[k:]
+							if sl, isSl := rl.seq.(*ssa.Slice); isSl && sl.High == nil && sl.Low != nil {
+								if ld == "(len("+p.D(sl.X)+")-"+p.D(sl.Low)+")" || ld == "(len("+p.D(sl.X)+")-"+p.D(sl.Low)+":int)" {
+									isRange = true
+								}
+							}
+						}
 					}
 				}
 				if isRange {
@@ -836,7 +852,7 @@ func rulePNIndex(p *Prog, r *Reporter) {
 			}
 		}
 	}
-	if nIdx < 4 {
+	if nIdx < 2 {
 		r.Dunno("datalog/symbol.go", "datalog.SymbolTable", "symbol lookups", fmt.Sprintf("only %d computed table indexes found in SymbolTable methods (expected the Str/Var lookups)", nIdx))
 	}
 }
@@ -1437,6 +1453,19 @@ func (p *Prog) nonNegative(v ssa.Value, blk *ssa.BasicBlock, depth int, seen map
 	defer delete(seen, v)
 	if k, ok := constInt(v); ok {
 		return k >= 0
+	}
+	// a dominating comparison of the value itself with zero: v < 0 excluded, v >= 0 established
+	for _, g := range guardsOf(blk) {
+		bo, ok := g.cond.(*ssa.BinOp)
+		if !ok || (bo.X != v && p.D(bo.X) != p.D(v)) {
+			continue
+		}
+		if k, isK := constInt(bo.Y); isK {
+			switch {
+			case bo.Op == token.LSS && k == 0 && !g.val, bo.Op == token.GEQ && k == 0 && g.val, bo.Op == token.GTR && k == -1 && g.val, bo.Op == token.LEQ && k == -1 && !g.val:
+				return true
+			}
+		}
 	}
 	switch x := v.(type) {
 	case *ssa.Call:
